@@ -361,6 +361,21 @@ fn visit_t<'a, T: Ty<'a>>(ctx: &Ctx, b: &'a [u8], n: usize, pol: Option<usize>) 
         return line;
     }
     let mut o: Vec<String> = vec![];
+    // C14 leaves one choice open: a segwit transaction whose witnesses are all empty and which is also cut before the
+    // end of its lock time may be answered with MoreBytesNeeded or SegwitFlagWithoutWitnesses. Whether an input is such
+    // a one is decided on the implementation itself, under every visitor policy: four more bytes turn the answer into
+    // SegwitFlagWithoutWitnesses.
+    if matches!(&r, Ok(Err(Error::MoreBytesNeeded))) && (T::NAME == "tx" || T::NAME == "block") {
+        let mut ext = b.to_vec();
+        ext.extend_from_slice(&[0, 0, 0, 0]);
+        let again = pc(|| match T::NAME {
+            "tx" => <bsl::Transaction as Parse>::parse(&ext).map(|_| ()),
+            _ => <bsl::Block as Parse>::parse(&ext).map(|_| ()),
+        });
+        if again == Ok(Err(Error::SegwitFlagWithoutWitnesses)) {
+            o.push("sfwwcut=1".into());
+        }
+    }
     // ---- C05 allocation count, C01 callback bound: a run with the allocation-free visitor
     let mut cv = CountV::new(pol);
     let a0 = allocs();
@@ -396,6 +411,11 @@ fn visit_t<'a, T: Ty<'a>>(ctx: &Ctx, b: &'a [u8], n: usize, pol: Option<usize>) 
                 o.push(format!("self={}", oracle::self_consistency::<T>(b, n, &res, &rec.evs)));
                 o.push(format!("indep={}", oracle::suffix_independence::<T>(b, n, &res, &rec.evs)));
                 o.push(format!("pfx={}", oracle::prefix_sweep::<T>(ctx, b, n)));
+                if T::NAME == "txouts" && b.len() <= 200_000 {
+                    if let Ok(pr) = <bsl::TxOuts as Parse>::parse(b) {
+                        o.push(format!("itad={}", oracle::iter_adaptors(pr.parsed())));
+                    }
+                }
                 o.push(format!("rb={}", oracle::rb(T::NAME, b, n, &res.as_ref().map(|pr| pr.consumed()).map_err(|e| e.clone()), &line)));
             }
             Some(k) => {
